@@ -2,6 +2,9 @@
 // from a splitmix64 stream and hands each to vf_run_case(); or replays saved inputs.
 #include "harness.h"
 #include <signal.h>
+#include <errno.h>
+#include <atomic>
+#include <thread>
 #include <time.h>
 #include <unistd.h>
 #include <fcntl.h>
@@ -22,8 +25,32 @@ static void OnCpuTimeout(int)
    _exit(98);
 }
 
+// Stall watchdog: a case that is still the current one at two consecutive ticks of a wall-clock timer while the process used (almost) no CPU in between is blocked where
+// nothing will wake it -- threads waiting for each other in the operating system, out of sight of the harness-owned scheduler.  CPU starvation under load does not trip it: a
+// process that is merely slow keeps consuming CPU.
+static double g_stallS = 45.0; static std::atomic<uint64_t> g_caseNo(0);
+static void StallWatchdog()
+{
+   // its own thread and no signals: a signal could interrupt a system call of the code under test
+   uint64_t tickCase = (uint64_t)-1; double tickCpu = 0.0;
+   while(true)
+   {
+      struct timespec nap; nap.tv_sec = (time_t) g_stallS; nap.tv_nsec = 0; while((nanosleep(&nap, &nap) != 0)&&(errno == EINTR)) {/* go on sleeping */}
+      struct timespec ts; clock_gettime(CLOCK_PROCESS_CPUTIME_ID, &ts); const double cpu = (double)ts.tv_sec+(double)ts.tv_nsec*1e-9;
+      const uint64_t cn = g_caseNo.load(std::memory_order_relaxed);
+      if ((tickCase == cn)&&(cpu-tickCpu < 0.5))
+      {
+         static const char msg[] = "\nVERIF-STALL: case is blocked: no progress and no CPU used between two watchdog ticks (threads waiting for each other outside the scheduler's view)\n";
+         ssize_t r = write(2, msg, sizeof(msg)-1); (void) r;
+         _exit(97);
+      }
+      tickCase = cn; tickCpu = cpu;
+   }
+}
+
 static void ArmTimer()
 {
+   g_caseNo.fetch_add(1, std::memory_order_relaxed);
    if (g_haveTimer == false) return;
    struct itimerspec its; memset(&its, 0, sizeof(its));
    its.it_value.tv_sec = (time_t) g_budgetS; its.it_value.tv_nsec = (long)((g_budgetS-(double)(time_t)g_budgetS)*1e9);
@@ -60,6 +87,7 @@ int main(int argc, char ** argv)
       else if ((strcmp(argv[i], "--maxlen") == 0)&&(i+1 < argc)) maxlen = strtoull(argv[++i], NULL, 10);
       else if ((strcmp(argv[i], "--cur") == 0)&&(i+1 < argc)) curPath = argv[++i];
       else if ((strcmp(argv[i], "--budget") == 0)&&(i+1 < argc)) g_budgetS = atof(argv[++i]);
+      else if ((strcmp(argv[i], "--stall") == 0)&&(i+1 < argc)) g_stallS = atof(argv[++i]);
       else if ((strcmp(argv[i], "--bytemode") == 0)&&(i+1 < argc)) byteMode = atoi(argv[++i]);
       else if (strcmp(argv[i], "--replay") == 0) {while(i+1 < argc) replays.push_back(argv[++i]);}
       else {fprintf(stderr, "usage: %s [--gen N --seed S --maxlen L --cur FILE --budget CPUSECONDS] | --replay FILE...\n", argv[0]); return 2;}
@@ -71,6 +99,7 @@ int main(int argc, char ** argv)
       struct sigevent sev; memset(&sev, 0, sizeof(sev)); sev.sigev_notify = SIGEV_SIGNAL; sev.sigev_signo = SIGUSR2;
       if (timer_create(CLOCK_PROCESS_CPUTIME_ID, &sev, &g_timer) == 0) g_haveTimer = true;
    }
+   if (g_stallS > 0.0) {std::thread wd(StallWatchdog); wd.detach();}
 
    if (curPath)
    {
